@@ -206,6 +206,11 @@ ErrProg(f, h) ==
               PE(<<Ln(10, <<[op |-> "ONERR", n |-> 100, col |-> TRUE]>>)>> \o body \o
                  <<Ln(100, PrtErr \o <<[op |-> "RESUME", w |-> "NEXT", n |-> 0, col |-> TRUE]>>)>>,
                  [kind |-> "err", expect |-> <<1, c, 20, 2, 3>>, endk |-> "end", code |-> 0, line |-> 0])
+         [] h = "rearm" ->     \* the trap is switched off and on again before the fault: it traps as if it had been set once
+              PE(<<Ln(10, <<[op |-> "ONERR", n |-> 100, col |-> TRUE], [op |-> "ONERR", n |-> 0, col |-> TRUE],
+                            [op |-> "ONERR", n |-> 100, col |-> TRUE]>>)>> \o body \o
+                 <<Ln(100, PrtErr \o <<[op |-> "RESUME", w |-> "NEXT", n |-> 0, col |-> TRUE]>>)>>,
+                 [kind |-> "err", expect |-> <<1, c, 20, 2, 3>>, endk |-> "end", code |-> 0, line |-> 0])
          [] h = "line" ->
               PE(<<Ln(10, <<[op |-> "ONERR", n |-> 100, col |-> TRUE]>>)>> \o body \o
                  <<Ln(100, PrtErr \o <<[op |-> "RESUME", w |-> "LINE", n |-> 30, col |-> TRUE]>>)>>,
@@ -233,7 +238,7 @@ ErrProg(f, h) ==
                  [kind |-> "err", expect |-> <<1, c, 20>>, endk |-> "error", code |-> 19, line |-> -1])
 \* (an expression fault without a handler is soft-handled by the interpreter: outside the fragment; with "retry" the
 \*  handler's counter I would repair the division)
-ErrFamily == ({ErrProg(f, h) : f \in Faults, h \in {"none", "next", "line", "retry", "inh", "off", "fall"}}
+ErrFamily == ({ErrProg(f, h) : f \in Faults, h \in {"none", "next", "rearm", "line", "retry", "inh", "off", "fall"}}
                \ {ErrProg("dz", h) : h \in {"none", "retry"}})
               \cup {PE(<<Ln(10, <<Prt(C(1)), [op |-> "RESUME", w |-> "0", n |-> 0, col |-> TRUE]>>)>>,
                        [kind |-> "err", expect |-> <<1>>, endk |-> "error", code |-> 20, line |-> 10])}
